@@ -146,6 +146,12 @@ _load_extra()
 
 # W-PIPE halves of properties whose other half lives in another world's registry file
 _EXTRA_BATCHES = {
+    # variant (B): engine on disk, real scanner, real module reloading at every software update
+    'C09': [dict(name='disk-reload-history', world='worlds.disk', cfg=dict(prop='C09', faults=False, events=8, max_total=8, max_pkgs=4), runs=dict(quick=300, thorough=15000))],
+    'C15': [dict(name='disk-reload-history', world='worlds.disk', cfg=dict(prop='C15', faults=False, events=8, graph_edits=False), runs=dict(quick=300, thorough=15000))],
+    'C10': [dict(name='disk-lifecycle', world='worlds.disk', cfg=dict(prop='C10', lifecycle=True, faults=False, events=10, fsm_graph_edits=True,
+                                                               mix=dict(run=3, rerun_executing=0, add_target=1, run_all=1, run_empty=0, update=0, submit=6, reset=2, bad_trigger=1)),
+                 runs=dict(quick=200, thorough=10000))],
     # the status poll of a worker that finishes while the pipeline is in gitting / reloading: the life-cycle world keeps it inactive for seconds
     'C11': [dict(name='lifecycle', world='worlds.fsm', cfg=dict(prop='C11', faults=False, events=12,
                                                              mix=dict(run=5, rerun_executing=0, add_target=1, run_all=1, run_empty=0, update=0, submit=6, reset=1, bad_trigger=0)),
